@@ -8,11 +8,7 @@ sys.path.insert(0, os.path.dirname(os.path.abspath(__file__)))
 import common  # noqa
 
 # properties whose check exists but is temporarily not claimed (reason shown in not_applicable)
-PENDING = {
-    'C05': 'model being updated to the repaired resolution code (fix commit 9bf7e72 in /repo)',
-    'C06': 'model being updated to the repaired resolution code (fix commit 9bf7e72 in /repo)',
-    'C12': 'registry tables being updated to the repaired operator overloads (fix commit f8595de in /repo)',
-}
+PENDING = {}
 
 
 def main():
